@@ -5,6 +5,7 @@
 mod cmp;
 mod dictsrc;
 mod gen;
+mod mon;
 mod objeq;
 mod props;
 mod refenc;
